@@ -3,6 +3,7 @@ from __future__ import annotations
 
 import ast
 
+from ..amatch import AM
 from ..effects import FRESH, GLOBAL_STATE_CALLS, Effects
 from ..fold import Folder, Opaque, Raised, Refuse
 from ..report import AnalysisError
@@ -133,8 +134,9 @@ def rule_b(ctx, E):
                    f"`{norm(tgt)}` may be shared (aliases {sorted(r) or ['an object created elsewhere']}): images derived through metadata() hold the same list", st)
     ctx.stat("inplace_metadata_writes", n)
     md = m.func(IMG, "Image.metadata")
-    rets = [norm(r.value) for r in ast.walk(md.node) if isinstance(r, ast.Return)]
-    ctx.ob(R, md.qname, "metadata() returns a copy of the dict (values shared)", rets in (["copy.copy(metadata)"], ["dict(metadata)"], ["copy.deepcopy(metadata)"]), str(rets), md.node)
+    am = AM(md)
+    ok = any(am.has(md.node, t) is not None for t in ("return copy.copy(metadata)", "return dict(metadata)", "return copy.deepcopy(metadata)", "return metadata.copy()"))
+    ctx.ob(R, md.qname, "metadata() returns a copy of the dict (values shared)", ok, str([norm(r.value) for r in ast.walk(md.node) if isinstance(r, ast.Return)]), md.node)
     ctx.instance(R)
     ctx.floor(R, 1)
 
@@ -206,9 +208,11 @@ def rule_d(ctx):
     alias = [s for s in rm.node.body if isinstance(s, ast.Assign) and norm(s.targets[0]) == "__rmul__"]
     ctx.ob(R, rm.qname, "__rmul__ is __mul__", len(alias) == 1 and norm(alias[0].value) == "__mul__", "", rm.node)
     ctx.instance(R)
-    body = [norm(s) for s in f.node.body if isinstance(s, (ast.Assign, ast.AugAssign, ast.Return))]
-    ok = body[0] == "result_image = self.copy()" and body[-1] == "return result_image" and any(b in (f"result_image.img *= {f.params[1]}", f"result_image.img = result_image.img * {f.params[1]}", f"result_image.img = {f.params[1]} * result_image.img") for b in body)
-    ctx.ob(R, f.qname, "__mul__ scales a copy of the image", ok, str(body), f.node)
+    am = AM(f)
+    sc = f.params[1]
+    ok = am.has(f.node, "result_image = self.copy()") is not None and am.has(f.node, "return result_image") is not None and any(
+        am.has(f.node, t) is not None for t in (f"result_image.img *= {sc}", f"result_image.img = result_image.img * {sc}", f"result_image.img = {sc} * result_image.img"))
+    ctx.ob(R, f.qname, "__mul__ scales a copy of the image", ok, str(am.show()), f.node)
     ctx.floor(R, 9)
 
 
